@@ -24,6 +24,16 @@ const MARGIN: f64 = 1.0 + 0.70711;
 pub fn render(c: &Case) -> Vec<u32> {
     let mut dt = DrawTarget::new(c.w, c.h);
     let white = Source::Solid(SolidSource { r: 255, g: 255, b: 255, a: 255 });
+    // in a third of the cases an unrelated clip path has been pushed and popped before (its path state must not
+    // reach the path under test, which may well begin without a move_to)
+    if (c.w + 2 * c.h + c.path.ops.len() as i32) % 3 == 0 {
+        let mut pb = PathBuilder::new();
+        pb.move_to(c.w as f32 * 0.25, c.h as f32 * 0.75);
+        pb.line_to(c.w as f32 * 0.9, c.h as f32 * 0.5);
+        pb.quad_to(c.w as f32, 0.0, c.w as f32 * 0.5, 1.0);
+        dt.push_clip(&pb.finish());
+        dt.pop_clip();
+    }
     dt.set_transform(&to_transform(&c.xf));
     let p = c.path.build();
     if c.as_clip {
@@ -251,7 +261,7 @@ pub fn strategy() -> BoxedStrategy<Case> {
 pub fn property(_ctx: &Ctx) -> Property {
     Property {
         id: "C08",
-        rule: "cases: paths of 2-8 ops mixing move/line/quad/cubic/arc/close in any order (curve first, directly after close, cusps, coincident control points, control points up to +-1500 units), both winding rules, identity / translation / rotation x scale / non-uniform scale / shear / mirror transforms (device geometry within +-4000 px), optionally with user space zoomed (units 4096 or 65536 times smaller, or 64 times larger, under a correspondingly scaled CTM), used as fill path or as clip path, white on transparent, 12..32 px surfaces. Oracle: f64 path walker with the statement's cursor rules, curves evaluated densely (<=0.08 px steps), winding number and distance to the outline per pixel centre; a pixel whose centre is more than 1 px + half a pixel diagonal from the outline must be exactly 0xffffffff when inside by the rule and exactly 0 when outside. Non-trivial: path with >=1 curve and >=1 judged-inside and >=1 judged-outside pixel; distinct by hash of the case.",
+        rule: "cases: paths of 2-8 ops mixing move/line/quad/cubic/arc/close in any order (curve first, directly after close, cusps, coincident control points, control points up to +-1500 units), both winding rules, identity / translation / rotation x scale / non-uniform scale / shear / mirror transforms (device geometry within +-4000 px), optionally with user space zoomed (units 4096 or 65536 times smaller, or 64 times larger, under a correspondingly scaled CTM), used as fill path or as clip path (in a third of the cases after an unrelated clip path was pushed and popped), white on transparent, 12..32 px surfaces. Oracle: f64 path walker with the statement's cursor rules, curves evaluated densely (<=0.08 px steps), winding number and distance to the outline per pixel centre; a pixel whose centre is more than 1 px + half a pixel diagonal from the outline must be exactly 0xffffffff when inside by the rule and exactly 0 when outside. Non-trivial: path with >=1 curve and >=1 judged-inside and >=1 judged-outside pixel; distinct by hash of the case.",
         assumptions: vec!["pixels within 1.71 px of the outline are not judged (counted as undecided)", "arcs are judged as the quads PathBuilder::arc emitted (C20 owns arc-vs-circle)"],
         parts: vec![part("fill", 80_000, 1_500_000, strategy, check)],
         min_class_fraction: vec![("fill", "has-curve", 0.8), ("fill", "as-clip-path", 0.15), ("fill", "draw-after-close", 0.05), ("fill", "non-monotonic-quad", 0.15), ("fill", "far-control-point", 0.05), ("fill", "curve-starts-above-row0", 0.1), ("fill", "control-point-level-with-endpoint", 0.1)],
